@@ -14,7 +14,7 @@ Independent of `Model.Layout.get`: plain `Nat` arithmetic, no accumulator, no op
   struct's alignment, array stride = element size which is already a multiple of its alignment).
 
 Only types of the property's grid have a reference layout (`wf`): half/int/uint/float/double, vectors of
-1–4 of them, enums (32-bit), arrays, non-empty structs.
+1–4 of them, enums (32-bit), arrays of at least one element, non-empty structs.
 -/
 namespace RsslVerif.Spec.Layout
 open RsslVerif.Gen.LayoutTables RsslVerif.Model.Layout
@@ -90,7 +90,7 @@ mutual
 def wf : Ty → Bool
   | .scalar s => sized s
   | .vec s n => sized s && (1 ≤ n && n ≤ 4)
-  | .arr t _ => wf t
+  | .arr t n => decide (1 ≤ n) && wf t
   | .struct ms => (match ms with | .nil => false | .cons _ _ => true) && wfAll ms
   | .enum u => u == .Int32 || u == .UInt32
   | .other _ => false
